@@ -243,6 +243,21 @@ func init() {
 	reg("strings.Contains", "r <=> Index(s,sub)>=0 (uninterpreted predicate with len(sub)<=len(s))", func(fr *Frame, in ssa.Instruction, st *State, args []Value, rt types.Type) Value {
 		return Scalar{strContains(fr.p, sTerm(args[0]), sTerm(args[1]))}
 	})
+	reg("strings.ContainsAny", "for a literal set of ASCII characters: Contains(s, c) for some c of the set; otherwise arbitrary", func(fr *Frame, in ssa.Instruction, st *State, args []Value, rt types.Type) Value {
+		chars := sTerm(args[1])
+		if lit, ok := strLitOf[chars.id]; ok && len(lit) <= 8 {
+			var ds []*Term
+			for i := 0; i < len(lit); i++ {
+				if lit[i] >= 0x80 {
+					return Scalar{B.Fresh("containsany", SBool)}
+				}
+				ds = append(ds, strContains(fr.p, sTerm(args[0]), strLit(string(lit[i]))))
+			}
+			return Scalar{Or(ds...)}
+		}
+		return Scalar{B.Fresh("containsany", SBool)}
+	})
+	libEffTable["strings.ContainsAny"] = noEffect
 	reg("strings.TrimSpace", "a function of s; r is a substring s[i:j]; r==s when s is empty", func(fr *Frame, in ssa.Instruction, st *State, args []Value, rt types.Type) Value {
 		p := fr.p
 		s := sTerm(args[0])
